@@ -208,7 +208,15 @@ func main() {
 		opts := SolveOpts{WorkDir: workDir, Keep: *keep != "", TimeoutMs: *timeout, Cross: *cross, Batch: *batch, KeepOb: *keepOb}
 		var flt func(*Obligation) bool
 		if *obFilter != "" {
-			flt = func(ob *Obligation) bool { return strings.Contains(ob.Name, *obFilter) }
+			parts := strings.Split(*obFilter, "|")
+			flt = func(ob *Obligation) bool {
+				for _, p := range parts {
+					if strings.Contains(ob.Name, p) {
+						return true
+					}
+				}
+				return false
+			}
 		}
 		rr := e.verifyFuncs(fns, opts, flt)
 		nOb, nOK := 0, 0
